@@ -76,6 +76,14 @@ let dispatch op =
       out_res (fun (k, l) -> out_z k; out_int (List.length l); List.iter (fun s -> List.iter out_z s) l) (compute_gonality fuel g mx fs)
   | "persink" -> let g = rd_graph () in let q = rd_nat () in let mx = rd_nat () in
       out_res (fun (k, l) -> out_nat k; out_int (List.length l); List.iter (fun s -> List.iter out_z s) l) (per_sink fuel g q mx)
+  | "legal" -> let g = rd_graph () in let q = rd_nat () in let d = rd_zlist () in let s = rd_natlist () in
+      (match is_legal_set_firing g q d s with Ok b -> out "ok"; out_bool b | Err -> out "err")
+  | "sstable" -> let g = rd_graph () in let q = rd_nat () in let d = rd_zlist () in out_bool (superstable_enum g q d); out_bool (reduced_b g q d)
+  | "cfgcmp" -> let g = rd_graph () in let q = rd_nat () in let d = rd_zlist () in let e = rd_zlist () in
+      out_bool (cfg_le g q d e); out_bool (cfg_eq g q d e); out_bool (cfg_lt g q d e); out_bool (cfg_le g q e d); out_bool (cfg_lt g q e d)
+  | "parking" -> let a = rd_zlist () in let n = rd_int () in out_bool (if n < 0 then is_parking a else is_parking_n a (nat_of_int n))
+  | "genpark" -> let n = rd_nat () in let l = generate_parking n in out_int (List.length l); out_z (parking_count n); List.iter (fun a -> List.iter out_z a; out ";") l
+  | "sscount" -> let g = rd_graph () in let q = rd_nat () in out_z (count_superstables g q); out_z (det (lap_reduced g q))
   | "game" -> let g = rd_graph () in let d = rd_zlist () in let v = rd_nat () in out_res out_bool (play_game fuel g d v)
   | "strat" -> let g = rd_graph () in let d = rd_zlist () in
       out_res (fun (b, l) -> out_bool b; out_natlist l) (test_strategy fuel g d)
